@@ -16,9 +16,9 @@ func init() {
 		Technique: "property-based testing (rapid) with a recording in-memory HTTP universe and history invariants; native fuzzing of the challenge parser (thorough)",
 		DesignRef: "DESIGN.md section 3, C15",
 		Runs: []run{
-			{Test: "TestC15_Flow", Quick: 20000, Thorough: 150000},
+			{Test: "TestC15_Flow", Quick: 20000, Thorough: 300000},
 			// Same round trip as the fuzz target, as replayable rapid scripts (test "challenge").
-			{Test: "TestC15_Challenge", Quick: 20000, Thorough: 100000, Shards: 4},
+			{Test: "TestC15_Challenge", Quick: 20000, Thorough: 200000, Shards: 4},
 			{Test: "FuzzC15_ParseWWWAuthenticate", Fuzz: true, FuzzTime: "60s"},
 		},
 	})
